@@ -447,5 +447,6 @@ func runC11(ctx Ctx) int {
 		runConc(run, "C11", cb, cs)
 	}
 	finishCapped(run, complete, fmt.Sprintf("%d configurations (k<=%d over %d dims), each a history of ~14 requests on one provider", len(items), k, len(c11Space.Dims)))
+	runLongRuns(run, "C11")
 	return run.Finish()
 }
